@@ -361,6 +361,34 @@ def catalogue():
         [CA, ("d", "catch", {"@pair:c"}), ("g", "coarse", None)], combine,
         lambda cs: {"op": cs.choice("op", ["+", "-"]),
                     "f": cs.flip("f", 40)}, weight=8)
+    def add_then_boundary(a, o):
+        c = (a.c + a.d) if o["op"] == "+" else (a.c - a.d)
+        c.delineate_boundary()
+        return [c.idxcells_boundary, c.extent()]
+    add("Catchment.__add__/__sub__ then delineate_boundary (same grid)",
+        [CA, ("d", "catch", {"@pair:c"})], add_then_boundary,
+        lambda cs: {"op": cs.choice("op", ["+", "-"])}, weight=4)
+    add("Catchment.__add__/__sub__ then delineate_boundary (any grids)",
+        [CA, ("d", "catch", None)], add_then_boundary,
+        lambda cs: {"op": cs.choice("op", ["+", "-"])}, weight=4)
+
+    def redelineate_then_intersect(a, o):
+        """One catchment object re-used: small area, intersect, larger area,
+        intersect again on a grid of the same geometry."""
+        n = int(a.fd.nrows * a.fd.ncols)
+        c = hgrid.Catchment("reuse", a.fd)
+        out = []
+        for outlet in o["outlets"]:
+            c.delineate_area(outlet % n, nval=n + 5)
+            out.append(c.intersect(a.g, filled=o["f"]))
+            if o["boundary"]:
+                c.delineate_boundary()
+        return out
+    add("Catchment re-delineated then intersect again",
+        [FD, ("g", "coarse", None)], redelineate_then_intersect,
+        lambda cs: {"outlets": [cs.draw(f"o{i}", 63) for i in range(4)],
+                    "f": cs.flip("f", 40),
+                    "boundary": cs.flip("boundary", 40)}, weight=6)
     add("Catchment.extent/isin", [CA],
         lambda a, o: (a.c.extent(), a.c.isin(o["c"])),
         lambda cs: {"c": cell(cs, "c")}, weight=2)
